@@ -6,6 +6,7 @@ package gen
 import (
 	"fmt"
 	"math"
+	"reflect"
 	"strconv"
 
 	"github.com/arloliu/go-secs/v2/secs2"
@@ -19,6 +20,46 @@ type Case struct {
 	It   secs2.Item
 	Ref  *e5.Val
 	Big  bool // payload >= 64 KiB (callers may thin out expensive oracles)
+}
+
+// built constructs an item from private copies of the slice arguments and then overwrites those
+// copies: what a constructor was given is the caller's again as soon as it returns, and an item
+// that kept it would now encode something else than the reference value.
+func built[T secs2.Item](ctor func(...any) T, args []any) secs2.Item {
+	cp := make([]any, len(args))
+	for i, a := range args {
+		v := reflect.ValueOf(a)
+		if v.IsValid() && v.Kind() == reflect.Slice {
+			c := reflect.MakeSlice(v.Type(), v.Len(), v.Len())
+			reflect.Copy(c, v)
+			cp[i] = c.Interface()
+		} else {
+			cp[i] = a
+		}
+	}
+	it := ctor(cp...)
+	for _, a := range cp {
+		v := reflect.ValueOf(a)
+		if !v.IsValid() || v.Kind() != reflect.Slice {
+			continue
+		}
+		for j := 0; j < v.Len(); j++ {
+			e := v.Index(j)
+			switch e.Kind() {
+			case reflect.Int, reflect.Int8, reflect.Int16, reflect.Int32, reflect.Int64:
+				e.SetInt(^e.Int())
+			case reflect.Uint, reflect.Uint8, reflect.Uint16, reflect.Uint32, reflect.Uint64:
+				e.SetUint(^e.Uint())
+			case reflect.Float32, reflect.Float64:
+				e.SetFloat(-e.Float() - 1)
+			case reflect.Bool:
+				e.SetBool(!e.Bool())
+			case reflect.String:
+				e.SetString("7" + e.String())
+			}
+		}
+	}
+	return it
 }
 
 // Grid selects how much of the leaf grid is produced.
@@ -483,7 +524,7 @@ func Leaves(g Grid, yield func(Case) bool) {
 							continue
 						}
 						emit(Case{Desc: fmt.Sprintf("I%d n=%d pat=%s shape=%s short=%v", w, n, p, k, short),
-							It: intCtor(fc, short)(sh[k]...), Ref: ref, Big: n*w >= 65536})
+							It: built(intCtor(fc, short), sh[k]), Ref: ref, Big: n*w >= 65536})
 						if !ok {
 							return
 						}
@@ -514,7 +555,7 @@ func Leaves(g Grid, yield func(Case) bool) {
 							continue
 						}
 						emit(Case{Desc: fmt.Sprintf("U%d n=%d pat=%s shape=%s short=%v", w, n, p, k, short),
-							It: uintCtor(fc, short)(sh[k]...), Ref: ref, Big: n*w >= 65536})
+							It: built(uintCtor(fc, short), sh[k]), Ref: ref, Big: n*w >= 65536})
 						if !ok {
 							return
 						}
@@ -545,7 +586,7 @@ func Leaves(g Grid, yield func(Case) bool) {
 							continue
 						}
 						emit(Case{Desc: fmt.Sprintf("F%d n=%d pat=%s shape=%s short=%v", w, n, p, k, short),
-							It: floatCtor(fc, short)(sh[k]...), Ref: ref, Big: n*w >= 65536})
+							It: built(floatCtor(fc, short), sh[k]), Ref: ref, Big: n*w >= 65536})
 						if !ok {
 							return
 						}
@@ -580,7 +621,7 @@ func Leaves(g Grid, yield func(Case) bool) {
 				switch fc {
 				case e5.Binary:
 					ref := &e5.Val{FC: fc, Raw: raw}
-					emit(Case{Desc: fmt.Sprintf("B n=%d pat=%s shape=slice", n, p), It: secs2.NewBinaryItem(append([]byte{}, raw...)), Ref: ref, Big: big})
+					emit(Case{Desc: fmt.Sprintf("B n=%d pat=%s shape=slice", n, p), It: built(secs2.NewBinaryItem, []any{append([]byte{}, raw...)}), Ref: ref, Big: big})
 					if n <= 300 {
 						emit(Case{Desc: fmt.Sprintf("B n=%d pat=%s shape=bytes", n, p), It: secs2.NewBinaryItem(scalars(raw)...), Ref: ref})
 						emit(Case{Desc: fmt.Sprintf("B n=%d pat=%s shape=ints short", n, p), It: secs2.B(scalars(conv[int](raw))...), Ref: ref})
@@ -594,7 +635,7 @@ func Leaves(g Grid, yield func(Case) bool) {
 						}
 						emit(Case{Desc: fmt.Sprintf("B n=%d pat=%s shape=strs", n, p), It: secs2.NewBinaryItem(scalars(ss)...), Ref: ref})
 						if n >= 2 {
-							emit(Case{Desc: fmt.Sprintf("B n=%d pat=%s shape=mixed", n, p), It: secs2.NewBinaryItem(raw[0], append([]byte{}, raw[1:]...)), Ref: ref})
+							emit(Case{Desc: fmt.Sprintf("B n=%d pat=%s shape=mixed", n, p), It: built(secs2.NewBinaryItem, []any{raw[0], append([]byte{}, raw[1:]...)}), Ref: ref})
 							emit(Case{Desc: fmt.Sprintf("B n=%d pat=%s shape=mixed2", n, p), It: secs2.NewBinaryItem(append([]byte{}, raw[:1]...), int(raw[1]), append([]byte{}, raw[2:]...)), Ref: ref})
 						}
 					}
@@ -604,11 +645,11 @@ func Leaves(g Grid, yield func(Case) bool) {
 						bs[i] = raw[i]&1 == 1 || p == "ff"
 					}
 					ref := &e5.Val{FC: fc, Bool: bs}
-					emit(Case{Desc: fmt.Sprintf("BOOLEAN n=%d pat=%s shape=slice", n, p), It: secs2.NewBooleanItem(append([]bool{}, bs...)), Ref: ref, Big: big})
+					emit(Case{Desc: fmt.Sprintf("BOOLEAN n=%d pat=%s shape=slice", n, p), It: built(secs2.NewBooleanItem, []any{append([]bool{}, bs...)}), Ref: ref, Big: big})
 					if n <= 300 {
 						emit(Case{Desc: fmt.Sprintf("BOOLEAN n=%d pat=%s shape=scalars short", n, p), It: secs2.BOOLEAN(scalars(bs)...), Ref: ref})
 						if n >= 2 {
-							emit(Case{Desc: fmt.Sprintf("BOOLEAN n=%d pat=%s shape=mixed", n, p), It: secs2.NewBooleanItem(bs[0], append([]bool{}, bs[1:]...)), Ref: ref})
+							emit(Case{Desc: fmt.Sprintf("BOOLEAN n=%d pat=%s shape=mixed", n, p), It: built(secs2.NewBooleanItem, []any{bs[0], append([]bool{}, bs[1:]...)}), Ref: ref})
 						}
 					}
 				case e5.ASCII:
